@@ -583,3 +583,78 @@ pub fn drive_histories(out: &mut dyn std::io::Write, seed: u64, thorough: bool, 
     ep.seek(out, "u128", false, 0x40_0000_0040);
     ep.pos(out, "u64");
 }
+
+/// One `apply_keystream` call over 2^32 + 133 bytes (per-call arithmetic on the slice length, block counts beyond 2^26, the
+/// wide-chunk loop running 2^24 times): windows of the produced keystream are recorded as ordinary `ks` events (the function
+/// specification recomputes them from the absolute position), the position afterwards must be start + len, and applying the
+/// same stream again in < 1 GiB pieces must restore the buffer (history independence between one call and many).
+pub fn drive_big(out: &mut dyn std::io::Write, seed: u64, thorough: bool) {
+    let mut rng = Rng::new(seed ^ 0xb16);
+    let all: [(&str, u64); 4] = [("ChaCha8", 7), ("Ietf", 193), ("XChaCha12", 0), ("ChaCha20", 64)];
+    let picks: Vec<(&str, u64)> = if thorough { all.to_vec() } else { vec![all[(seed % 2) as usize * 2], all[1]] };
+    for (variant, start) in picks {
+        let key = rng.bytes(32);
+        let nonce = rng.bytes(nonce_len(variant));
+        let len: usize = (1usize << 32) + 133;
+        let mut buf = vec![0u8; len];
+        let r = guarded(|| {
+            let mut c = make(variant, &key, &nonce);
+            if start != 0 {
+                c.seek("u64", false, start as u128).map_err(|_| "seek-err")?;
+            }
+            c.apply(&mut buf).map_err(|_| "apply-err")?;
+            Ok::<Option<u128>, &str>(c.pos("u128"))
+        });
+        let (res, pos_after) = match &r {
+            Ok(Ok(Some(p))) => ("ok".to_string(), *p),
+            Ok(Ok(None)) => ("pos-overflow".to_string(), 0),
+            Ok(Err(e)) => (e.to_string(), 0),
+            Err(p) => (format!("panic:{}", sanitize(p)), 0),
+        };
+        if res == "ok" {
+            let mut offs: Vec<(usize, usize)> = vec![(0, 130), (57, 70), ((1usize << 32) - 300, 420), (len - 200, 200), ((1usize << 31) - 64, 192)];
+            for _ in 0..(if thorough { 12 } else { 4 }) {
+                offs.push((rng.below((len - 400) as u64) as usize, 1 + rng.below(300) as usize));
+            }
+            for (off, n) in offs {
+                Ev::new(0, "ks")
+                    .s("variant", variant)
+                    .s("tag", "bigcall")
+                    .bytes("key", &key)
+                    .bytes("nonce", &nonce)
+                    .limbs("pos", start as u128 + off as u128, 5)
+                    .i("n", n as i64)
+                    .bytes("before", &vec![0u8; n])
+                    .bytes("after", &buf[off..off + n])
+                    .b("guard", true)
+                    .s("res", "ok")
+                    .emit(out);
+            }
+        }
+        // the same stream again, in pieces: the buffer must be all zero afterwards
+        let r2 = guarded(|| {
+            let mut c = make(variant, &key, &nonce);
+            if start != 0 {
+                c.seek("u64", false, start as u128).map_err(|_| "seek-err")?;
+            }
+            let step = (1usize << 30) - 24;
+            let mut off = 0usize;
+            while off < len {
+                let n = std::cmp::min(step, len - off);
+                c.apply(&mut buf[off..off + n]).map_err(|_| "apply-err")?;
+                off += n;
+            }
+            Ok::<(), &str>(())
+        });
+        let rezero = matches!(r2, Ok(Ok(()))) && buf.iter().all(|&b| b == 0);
+        Ev::new(0, "bigcall")
+            .s("variant", variant)
+            .s("tag", "bigcall")
+            .limbs("start", start as u128, 5)
+            .limbs("len", len as u128, 5)
+            .limbs("pos_after", pos_after, 5)
+            .b("rezero", rezero)
+            .s("res", &res)
+            .emit(out);
+    }
+}
